@@ -271,30 +271,38 @@ def run(rep, tier, seed):
         faulty = [c for c in cases if c[1][0] != "none"]
         cases = (nofault if len(nofault) <= 2000 else rnd.sample(nofault, 2000)) + rnd.sample(faulty, 500)
     G["cases"] = cases
-    evs = [e for chunk in parallel(w_plans, range(len(cases))) for e in chunk]
     nfx = 16 if tier == "quick" else 300
-    evs += [e for chunk in parallel(w_fixture, [seed * 9973 + i for i in range(nfx)]) for e in chunk]
     strip = lambda e: {k: v for k, v in e.items() if k != "desc"}  # noqa: E731
-    rejects, rr = judge_traces([strip(e) for e in evs], PID, module="TraceEml", cfg="TraceValidate.cfg", label="expand", lib=wd, timeout=3000)
-    rep.cov["states"] += rr.distinct or 0
-    rep.cov["transitions"] += rr.generated or 0
-    rep.cov["traces_validated_against_impl"] = len(evs)
-    ok_runs = sum(1 for e in evs if e["raised"] == "")
-    fail_runs = sum(1 for e in evs if e["raised"] != "")
+    # in batches: the recorded events (three full states each) of a thorough run do not fit into memory at once
+    B = 2500
+    nev = ok_runs = fail_runs = valid_before = 0
+    for lo in range(0, len(cases), B):
+        evs = [e for chunk in parallel(w_plans, range(lo, min(lo + B, len(cases)))) for e in chunk]
+        if lo == 0:
+            evs += [e for chunk in parallel(w_fixture, [seed * 9973 + i for i in range(nfx)]) for e in chunk]
+        rejects, rr = judge_traces([strip(e) for e in evs], PID, module="TraceEml", cfg="TraceValidate.cfg", label="expand", lib=wd, timeout=3000)
+        rep.cov["states"] += rr.distinct or 0
+        rep.cov["transitions"] += rr.generated or 0
+        nev += len(evs)
+        ok_runs += sum(1 for e in evs if e["raised"] == "")
+        fail_runs += sum(1 for e in evs if e["raised"] != "")
+        valid_before += sum(1 for e in evs if e["validBefore"])
+        for rj in rejects:
+            e = evs[rj["event"] - 1]
+            for cl in rj["clauses"]:
+                if cl == "HARNESS-precondition":
+                    raise MachineryError("expand case outside the statement's precondition")
+                rep.violation(f"{PID}:{cl}" + (f":{e['raised']}" if "raised" in cl else ""), f"expand clause {cl}; case {e['desc']}; raised {e['raised']!r}",
+                              {"kind": "expand", "desc": e["desc"], "clause": cl, "pre": e["pre"], "post": e["post"]})
+        del evs, rejects
+    rep.cov["traces_validated_against_impl"] = nev
     with_role = sum(1 for (items, f) in cases if any(it["el"] == "associatedParty" and it["kind"] == "ref" for it in items))
     rep.notes.update(plan_cases=len(cases), fixture_cases=nfx, expansions_succeeded=ok_runs, expansions_refused=fail_runs,
-                     plans_with_reference_followed_by_role=with_role, valid_before=sum(1 for e in evs if e["validBefore"]))
+                     plans_with_reference_followed_by_role=with_role, valid_before=valid_before)
     if ok_runs == 0 or fail_runs == 0 or with_role == 0:
         raise MachineryError("vacuous exploration")
-    for rj in rejects:
-        e = evs[rj["event"] - 1]
-        for cl in rj["clauses"]:
-            if cl == "HARNESS-precondition":
-                raise MachineryError("expand case outside the statement's precondition")
-            rep.violation(f"{PID}:{cl}" + (f":{e['raised']}" if "raised" in cl else ""), f"expand clause {cl}; case {e['desc']}; raised {e['raised']!r}",
-                          {"kind": "expand", "desc": e["desc"], "clause": cl, "pre": e["pre"], "post": e["post"]})
     rep.sample({"items": cases[len(cases) // 2][0], "fault": cases[len(cases) // 2][1]})
-    rep.cov["evaluations"] = len(evs)
-    rep.cov["distinct_nontrivial"] = len(evs)
+    rep.cov["evaluations"] = nev
+    rep.cov["distinct_nontrivial"] = nev
     rep.cov["rule"] = "one event per expand call; distinct by plan (order of definitions/references, roles) x fault placement"
     rep.assumptions += ["every references value names exactly one element id of an element governed by the same rule that holds no references itself (except for the one planted fault)"]
